@@ -7,10 +7,12 @@ import LarkVerif.LexTiling
 import LarkVerif.LexFast
 import LarkVerif.EarleyExec
 import LarkVerif.LRCheck
+import LarkVerif.LRError
 import LarkVerif.LRComplete
 import LarkVerif.LRClosedCheck
 import LarkVerif.LALRTable
 import LarkVerif.Shape
+import LarkVerif.RuleSize
 import LarkVerif.Positions
 import LarkVerif.Scan
 import LarkVerif.Transform
@@ -290,6 +292,50 @@ def runLrParse (j : Json) : Except String Json := do
     | Outcome.accept _ => "accept" | Outcome.error => "error" | Outcome.loop => "loop" | Outcome.crash => "crash" | Outcome.shifted _ => "shifted"
   pure (Json.mkObj [("safe", Json.bool safe), ("closed", closed), ("outcome", Json.str outcome), ("errorAt", natJ errorAt), ("steps", Json.arr steps), ("parse", Json.str whole)])
 
+open EarleyProto LRProto in
+/-- C13: single `feed_token` calls from arbitrary state stacks — the verdict (`reduceLoop`) and the stacks left behind (`reductionsOn`, error states included) -/
+def runLrFeed (j : Json) : Except String Json := do
+  let rules ← (← getArr j "rules").mapM ruleOf
+  let F ← ftableOf j rules
+  let T := F.toTable
+  let fuel ← getNat j "fuel"
+  let qs ← (← getArr j "queries").mapM fun q => do
+    match (← q.getArr?).toList with
+    | [st, t, e] => pure (← natListOf st, ← t.getNat?, (← e.getNat?) != 0)
+    | _ => throw "query"
+  let outs := qs.map fun (stack, t, isEnd) =>
+    let states := stack.reverse
+    let cfg : Config := ⟨states, List.replicate (states.length - 1) (Sym.t 0, [])⟩
+    let left := reductionsOn T t isEnd fuel cfg
+    let (status, after) := match reduceLoop T t isEnd fuel cfg with
+      | Outcome.shifted c => ("shifted", c.states)
+      | Outcome.accept _ => ("accept", left.states)
+      | Outcome.error => ("error", left.states)
+      | Outcome.crash => ("crash", left.states)
+      | Outcome.loop => ("loop", left.states)
+    Json.mkObj [("status", Json.str status), ("stack", natArr after.reverse)]
+  pure (Json.arr outs.toArray)
+
+open RuleSizeProto in
+/-- C03: body of a `[..]` as JSON: {"s": kept} | {"seq": [...]} | {"alt": [...]} | {"maybe": body} (a nested `[..]`, expanded as `EBNF_to_BNF.maybe` does) -/
+partial def eOf (j : Json) : Except String E := do
+  match j.getObjVal? "s" with
+  | .ok b => pure (E.sym (← boolOf b))
+  | .error _ =>
+    match j.getObjVal? "seq" with
+    | .ok l => pure (E.seq (← (← l.getArr?).toList.mapM eOf))
+    | .error _ =>
+      match j.getObjVal? "alt" with
+      | .ok l => pure (E.alt (← (← l.getArr?).toList.mapM eOf))
+      | .error _ =>
+        let x ← eOf (← j.getObjVal? "maybe")
+        pure (E.alt [x, E.seq (List.replicate (size x) (E.sym false))])
+
+open RuleSizeProto in
+def runRuleSize (j : Json) : Except String Json := do
+  let e ← eOf (← j.getObjVal? "body")
+  pure (Json.mkObj [("size", natJ (size e)), ("longest", natJ (longest (alts e)))])
+
 open ShapeProto in
 def symInfoOf (j : Json) : Except String SymInfo := do
   match (← j.getArr?).toList with
@@ -553,6 +599,8 @@ def handle (j : Json) : Except String Json := do
     let r := ScanProto.scanRaw (fun p => sM.get? p) (fun p => aM.get? p) (n + 2) pos
     pure (Json.arr (r.map (fun (a, b) => natArr [a, b])).toArray)
   | "lr_parse" => runLrParse j
+  | "lr_feed" => runLrFeed j
+  | "rule_size" => runRuleSize j
   | _ => throw s!"unknown op {op}"
 
 partial def loop (h : IO.FS.Stream) (out : IO.FS.Stream) : IO Unit := do
